@@ -1,6 +1,7 @@
 """C11 - on-chain conclusions depend only on the chain, not on how it was delivered (structural part)."""
 from engine import *
 import provenance
+import mutations
 import json
 import chainrules
 
@@ -456,3 +457,4 @@ RULES = [
 ]
 RULES.append(('11.t', 'identity comparisons: every reviewed (function, identity type) == / != comparison (HTLCSource, Txid, OutPoint, ChannelId, PaymentHash, PublicKey, ...) is still made - a function does not silently change what it matches by (rules/provenance.py)', lambda F: provenance.ids_for_property(F, 'C11', '11.t')))
 RULES.append(('11.R', 'state resets: every reviewed constant write to persistent state (flag = true / false, counter = 0, pending slot = None) of a function is still made (rules/provenance.py)', lambda F: provenance.flags_for_property(F, 'C11', '11.R')))
+RULES.append(('11.M', 'collection mutations: every reviewed (function, stored collection, mutator class: add / remove / filter / empty / swap / order) triple is still present - an entry that is no longer removed, inserted or drained on one path (rules/mutations.py)', lambda F: mutations.for_property(F, 'C11', '11.M')))
